@@ -349,6 +349,11 @@ def recordWrites (rs : List Record) : List WriteOp := rs.map (fun r => rawWrite 
 def loadRecords (rs : List Record) (entry pcbits : Nat) : Task :=
   ⟨writesZone (recordWrites rs), entry % 2 ^ pcbits⟩
 
+/-- `RawExec.relocate(vaddr)`: every object of the concrete zone is moved by `vaddr - zone.range()[0]`,
+    `restruct()` rebuilds the cache (and merges adjacent raw objects), `pc := vaddr`. -/
+def relocate (t : Task) (vaddr pcbits : Nat) : Task :=
+  ⟨(t.zone.shift ((vaddr : Int) - t.zone.range.1)).restruct, vaddr % 2 ^ pcbits⟩
+
 /-- Intel-HEX address composition of `HEX.decode` (`if ela: (ela<<16)+a elif seg: seg*16+a else a`). -/
 def hexAddress (ela seg a : Nat) : Nat :=
   if ela ≠ 0 then ela * 65536 + a else if seg ≠ 0 then seg * 16 + a else a
